@@ -17,6 +17,7 @@ import (
 	"sort"
 	"strings"
 	"sync"
+	"unsafe"
 
 	"github.com/iotaledger/hive.go/kvstore"
 	"github.com/iotaledger/hive.go/kvstore/debug"
@@ -40,6 +41,8 @@ type Step struct {
 	B     int    `json:"b,omitempty"`   // batch index
 	K     []byte `json:"k,omitempty"`   // key / prefix / realm
 	Val   []byte `json:"val,omitempty"` // value
+	KM    int    `json:"km,omitempty"`  // how K is handed over: 0 exact-size slice, 1..8 spare capacity bytes, 100 carved from the realm table, 101 from the key table
+	VM    int    `json:"vm,omitempty"`  // same for Val
 	Dir   int    `json:"dir,omitempty"` // 0 direction omitted, 1 forward, 2 backward
 	Stop  int    `json:"stop,omitempty"`
 	Ext   bool   `json:"ext,omitempty"` // newview: WithExtendedRealm
@@ -68,13 +71,16 @@ type view struct {
 	st     kvstore.KVStore
 	realm  string
 	layers []layer // outermost first
+	// realm handed to WithRealm as table[:sharedLen] of the shared realm table
+	shared    bool
+	sharedLen int
 }
 
 type batch struct {
 	b    kvstore.BatchedMutations
 	view int
 	ops  []kvmodel.BatchOp
-	bufs [][]byte
+	bufs []*gbuf
 	done bool
 }
 
@@ -98,6 +104,13 @@ type stats struct {
 	misses      int
 	batchMixed  int
 	multiBatch  int
+	exactArgs   int
+	spareArgs   int
+	sharedArgs  int
+	reuses      int
+	guardBytes  int
+	sharedViews int
+	sharedPairs int
 	stacks      map[string]bool
 	realmShapes map[string]bool
 }
@@ -108,6 +121,7 @@ func newStats() *stats {
 
 type failure struct {
 	fp, what string
+	step     int
 }
 
 type runner struct {
@@ -120,12 +134,200 @@ type runner struct {
 	writer  map[string]int // full key -> view index that wrote it last
 	fail    *failure
 	uniq    int
+
+	// caller-side buffers (see "caller buffers" below)
+	rt, kt  *gbuf   // shared tables: realms (and keys) are carved out of them as overlapping sub-slices
+	opBufs  []*gbuf // arguments of the operation in progress
+	persist []*gbuf // buffers the library may legitimately still reference (view realms, open batches)
+	pool    []*gbuf // buffers handed to Set / a finished batch: scribbled, then reused for later arguments
+	all     []*gbuf
+	alias   []failure // writes into caller buffers (reported, the history continues)
+	stepNo  int
 }
 
 func q(b []byte) string  { return fmt.Sprintf("%q", b) }
 func qs(s string) string { return fmt.Sprintf("%q", s) }
 
-func clone(b []byte) []byte { return append([]byte{}, b...) }
+// ---------------------------------------------------------------- caller buffers
+//
+// Every []byte handed to the library is a slice of a harness-owned backing
+// array: exact-size, with spare capacity (len < cap, the spare part filled with
+// a canary), or carved out of one of two shared tables so that realms (and
+// keys) of sibling views overlap the way table[:2] / table[:5] do. After every
+// library call all live backing arrays are compared with what the harness put
+// there: the library must never write into a caller's buffer, neither inside
+// len nor into the spare capacity. Buffers given to Set / a finished batch are
+// scribbled and reused for later arguments, so a retained slice shows up as a
+// model disagreement. Realm buffers are never modified by the harness (the
+// library may keep them).
+
+const (
+	canaryByte = 0xC5
+	modeRT     = 100
+	modeKT     = 101
+)
+
+type gbuf struct {
+	back   []byte // the whole backing array
+	want   []byte // what the harness wrote there
+	minEnd int    // smallest end offset of a slice handed to the library
+	name   string
+}
+
+func newTable(name string, content []byte, spare int) *gbuf {
+	g := &gbuf{back: make([]byte, len(content)+spare), minEnd: len(content), name: name}
+	copy(g.back, content)
+	for i := len(content); i < len(g.back); i++ {
+		g.back[i] = canaryByte
+	}
+	g.want = append([]byte{}, g.back...)
+	return g
+}
+
+// arg returns content as a slice prepared according to mode and the buffer
+// that backs it (nil for table carvings, which are never released).
+func (r *runner) arg(content []byte, mode int) ([]byte, *gbuf) {
+	n := len(content)
+	if mode == modeRT || mode == modeKT {
+		t := r.rt
+		if mode == modeKT {
+			t = r.kt
+		}
+		if t != nil {
+			if i := bytes.Index(t.want[:len(t.want)-tableSpare], content); i >= 0 {
+				if i+n < t.minEnd {
+					t.minEnd = i + n
+				}
+				r.st.sharedArgs++
+				return t.back[i : i+n], nil
+			}
+		}
+		mode = 3
+	}
+	need := n + mode
+	var g *gbuf
+	for i, p := range r.pool {
+		if len(p.back) >= need {
+			g = p
+			r.pool = append(r.pool[:i], r.pool[i+1:]...)
+			r.st.reuses++
+			break
+		}
+	}
+	if g == nil {
+		g = &gbuf{back: make([]byte, need), want: make([]byte, need)}
+		r.all = append(r.all, g)
+	}
+	g.name = "argument"
+	g.minEnd = n
+	copy(g.back, content)
+	for i := n; i < len(g.back); i++ {
+		g.back[i] = canaryByte
+	}
+	copy(g.want, g.back)
+	r.opBufs = append(r.opBufs, g)
+	if mode == 0 {
+		r.st.exactArgs++
+		return g.back[:n:n], g
+	}
+	r.st.spareArgs++
+	return g.back[:n], g
+}
+
+const tableSpare = 8
+
+// checkBuffers runs after every library call.
+func (r *runner) checkBuffers(op string) {
+	check := func(g *gbuf) {
+		if g == nil {
+			return
+		}
+		r.st.guardBytes += len(g.back)
+		if bytes.Equal(g.back, g.want) {
+			return
+		}
+		o := 0
+		for o < len(g.back) && g.back[o] == g.want[o] {
+			o++
+		}
+		fp := "alias/library-wrote-into-caller-buffer"
+		where := "inside a slice it was given"
+		if o >= g.minEnd {
+			fp = "alias/library-wrote-into-caller-spare-capacity"
+			where = fmt.Sprintf("beyond the length (%d) of the slice it was given", g.minEnd)
+		}
+		if len(r.alias) < 4 {
+			r.alias = append(r.alias, failure{fp, fmt.Sprintf("%s changed the caller's %s buffer at offset %d, %s: backing array is now %q, the caller wrote %q", op, g.name, o, where, g.back, g.want), r.stepNo})
+		}
+		copy(g.want, g.back) // report once; the damage stays so that wrong answers follow
+	}
+	check(r.rt)
+	if r.kt != r.rt {
+		check(r.kt)
+	}
+	for _, g := range r.persist {
+		check(g)
+	}
+	for _, g := range r.opBufs {
+		check(g)
+	}
+}
+
+// release scribbles buffers whose content the library must have copied by now
+// (after Set / Commit) and makes them available for later arguments.
+func (r *runner) release(gs ...*gbuf) {
+	for _, g := range gs {
+		if g == nil {
+			continue
+		}
+		for i := range g.back {
+			g.back[i] = scribbleByte
+		}
+		copy(g.want, g.back)
+		r.st.scribbles += len(g.back)
+		r.pool = append(r.pool, g)
+	}
+}
+
+func (r *runner) unpersist(gs []*gbuf) {
+	drop := map[*gbuf]bool{}
+	for _, g := range gs {
+		drop[g] = true
+	}
+	var keep []*gbuf
+	for _, g := range r.persist {
+		if !drop[g] {
+			keep = append(keep, g)
+		}
+	}
+	r.persist = keep
+}
+
+func overlaps(a, b []byte) bool {
+	a, b = a[:cap(a)], b[:cap(b)]
+	if len(a) == 0 || len(b) == 0 {
+		return false
+	}
+	a0, b0 := uintptr(unsafe.Pointer(&a[0])), uintptr(unsafe.Pointer(&b[0]))
+	return a0 < b0+uintptr(len(b)) && b0 < a0+uintptr(len(a))
+}
+
+// callerOwned reports whether a slice returned by the library shares memory
+// with a buffer of the caller.
+func (r *runner) callerOwned(b []byte) bool {
+	if cap(b) == 0 {
+		return false
+	}
+	if r.rt != nil && overlaps(b, r.rt.back) || r.kt != nil && overlaps(b, r.kt.back) {
+		return true
+	}
+	for _, g := range r.all {
+		if overlaps(b, g.back) {
+			return true
+		}
+	}
+	return false
+}
 
 func scribble(bs ...[]byte) int {
 	n := 0
@@ -140,7 +342,7 @@ func scribble(bs ...[]byte) int {
 
 func (r *runner) failf(fp, format string, a ...any) {
 	if r.fail == nil {
-		r.fail = &failure{fp, fmt.Sprintf(format, a...)}
+		r.fail = &failure{fp, fmt.Sprintf(format, a...), r.stepNo}
 	}
 }
 
@@ -208,6 +410,7 @@ func (r *runner) guard(op string, f func()) (ok bool) {
 		}
 	}()
 	f()
+	r.checkBuffers(op)
 	return true
 }
 
@@ -282,7 +485,9 @@ func wantNil(r *runner, op string, err error) bool {
 	return true
 }
 
-func aliased(b []byte) bool { return bytes.IndexByte(b, scribbleByte) >= 0 }
+func (r *runner) aliased(b []byte) bool {
+	return bytes.IndexByte(b, scribbleByte) >= 0 || r.callerOwned(b)
+}
 
 func dirArgs(d int) []kvstore.IterDirection {
 	switch d {
@@ -296,6 +501,7 @@ func dirArgs(d int) []kvstore.IterDirection {
 
 // exec executes one step against the real stores and the model.
 func (r *runner) exec(s Step) {
+	defer func() { r.stepNo++ }()
 	r.st.ops[s.Op]++
 	r.st.evals++
 	closed := r.m.Closed
@@ -307,8 +513,16 @@ func (r *runner) exec(s Step) {
 		v = r.views[s.V]
 	}
 	r.log = nil
+	r.opBufs = r.opBufs[:0]
 	switch s.Op {
 	case "root":
+		if len(s.K) > 0 {
+			r.rt = newTable("realm table", s.K, tableSpare)
+			r.kt = r.rt
+			if len(s.Val) > 0 {
+				r.kt = newTable("key table", s.Val, tableSpare)
+			}
+		}
 		st, ls := r.wrap(mapdb.NewMapDB(), nil, s.Wraps)
 		r.views = append(r.views, &view{st: st, realm: "", layers: ls})
 		r.st.stacks[stackName(ls)] = true
@@ -316,7 +530,7 @@ func (r *runner) exec(s Step) {
 	case "newview":
 		var st kvstore.KVStore
 		var err error
-		realm := clone(s.K)
+		realm, rbuf := r.arg(s.K, s.KM)
 		name := "WithRealm"
 		if s.Ext {
 			name = "WithExtendedRealm"
@@ -356,13 +570,16 @@ func (r *runner) exec(s Step) {
 		}
 		ls := append([]layer{}, v.layers...)
 		st, ls = r.wrap(st, ls, s.Wraps)
-		r.views = append(r.views, &view{st: st, realm: want, layers: ls})
+		r.views = append(r.views, &view{st: st, realm: want, layers: ls, shared: rbuf == nil && !s.Ext, sharedLen: len(s.K)})
+		if rbuf != nil {
+			r.persist = append(r.persist, rbuf) // the library may keep the realm slice; it must not write to it
+		}
 		r.st.stacks[stackName(ls)] = true
 
 	case "get":
 		var val []byte
 		var err error
-		if !r.guard("Get", func() { val, err = v.st.Get(clone(s.K)) }) {
+		if !r.guard("Get", func() { k, _ := r.arg(s.K, s.KM); val, err = v.st.Get(k) }) {
 			return
 		}
 		if closed {
@@ -387,7 +604,7 @@ func (r *runner) exec(s Step) {
 		}
 		if string(val) != want {
 			fp := "Get/wrong-value"
-			if aliased(val) {
+			if r.aliased(val) {
 				fp = "Get/value-aliases-caller-buffer"
 			}
 			r.failf(fp, "Get(%s) in realm %s returned %s, the model holds %s", q(s.K), qs(v.realm), q(val), qs(want))
@@ -396,12 +613,16 @@ func (r *runner) exec(s Step) {
 		if w, ok := r.writer[v.realm+string(s.K)]; ok && w != s.V {
 			r.st.crossRealm++
 		}
+		if r.callerOwned(val) {
+			r.failf("Get/returns-caller-buffer", "Get(%s) in realm %s returned a slice that shares memory with a buffer of the caller (not a private copy)", q(s.K), qs(v.realm))
+			return
+		}
 		r.st.scribbles += scribble(val)
 
 	case "has":
 		var b bool
 		var err error
-		if !r.guard("Has", func() { b, err = v.st.Has(clone(s.K)) }) {
+		if !r.guard("Has", func() { k, _ := r.arg(s.K, s.KM); b, err = v.st.Has(k) }) {
 			return
 		}
 		if closed {
@@ -417,7 +638,8 @@ func (r *runner) exec(s Step) {
 		}
 
 	case "set":
-		kb, vb := clone(s.K), clone(s.Val)
+		kb, kg := r.arg(s.K, s.KM)
+		vb, vg := r.arg(s.Val, s.VM)
 		var err error
 		if !r.guard("Set", func() { err = v.st.Set(kb, vb) }) {
 			return
@@ -432,11 +654,11 @@ func (r *runner) exec(s Step) {
 		}
 		r.m.Set(v.realm, string(s.K), string(s.Val))
 		r.writer[v.realm+string(s.K)] = s.V
-		r.st.scribbles += scribble(kb, vb)
+		r.release(kg, vg)
 
 	case "delete":
 		var err error
-		if !r.guard("Delete", func() { err = v.st.Delete(clone(s.K)) }) {
+		if !r.guard("Delete", func() { k, _ := r.arg(s.K, s.KM); err = v.st.Delete(k) }) {
 			return
 		}
 		if closed {
@@ -459,7 +681,8 @@ func (r *runner) exec(s Step) {
 			if s.Op == "clear" {
 				err = v.st.Clear()
 			} else {
-				err = v.st.DeletePrefix(clone(s.K))
+				k, _ := r.arg(s.K, s.KM)
+				err = v.st.DeletePrefix(k)
 			}
 		}) {
 			return
@@ -495,13 +718,17 @@ func (r *runner) exec(s Step) {
 			name = "IterateKeys"
 		}
 		var got []kvmodel.KV
-		stopped, afterStop := false, 0
+		stopped, afterStop, owned := false, 0, false
 		consume := func(k, val []byte) bool {
 			if stopped {
 				afterStop++
 			}
 			got = append(got, kvmodel.KV{K: string(k), V: string(val)})
-			r.st.scribbles += scribble(k, val)
+			if r.callerOwned(k) || r.callerOwned(val) {
+				owned = true
+			} else {
+				r.st.scribbles += scribble(k, val)
+			}
 			if s.Stop > 0 && len(got) >= s.Stop {
 				stopped = true
 				return false
@@ -511,9 +738,11 @@ func (r *runner) exec(s Step) {
 		var err error
 		if !r.guard(name, func() {
 			if s.Op == "iterate" {
-				err = v.st.Iterate(clone(s.K), consume, dirArgs(s.Dir)...)
+				k, _ := r.arg(s.K, s.KM)
+				err = v.st.Iterate(k, consume, dirArgs(s.Dir)...)
 			} else {
-				err = v.st.IterateKeys(clone(s.K), func(k []byte) bool { return consume(k, nil) }, dirArgs(s.Dir)...)
+				k, _ := r.arg(s.K, s.KM)
+				err = v.st.IterateKeys(k, func(k []byte) bool { return consume(k, nil) }, dirArgs(s.Dir)...)
 			}
 		}) {
 			return
@@ -560,7 +789,7 @@ func (r *runner) exec(s Step) {
 			case eqKeys(got, want):
 				fp = name + "/wrong-value"
 				for _, g := range got {
-					if aliased([]byte(g.V)) {
+					if owned || bytes.IndexByte([]byte(g.V), scribbleByte) >= 0 {
 						fp = name + "/value-aliases-caller-buffer"
 					}
 				}
@@ -568,6 +797,8 @@ func (r *runner) exec(s Step) {
 				fp = name + "/wrong-entries"
 			}
 			r.failf(fp, "%s(prefix %s, %s, stop after %d) in realm %s delivered %s, the model says %s", name, q(s.K), dir, s.Stop, qs(v.realm), fmtKV(got), fmtKV(want))
+		} else if owned {
+			r.failf(name+"/returns-caller-buffer", "%s(prefix %s) in realm %s handed the consumer a slice that shares memory with a buffer of the caller (not a private copy)", name, q(s.K), qs(v.realm))
 		}
 
 	case "realm":
@@ -636,7 +867,8 @@ func (r *runner) exec(s Step) {
 		}
 		b := r.batches[s.B]
 		bv := r.views[b.view]
-		kb, vb := clone(s.K), clone(s.Val)
+		kb, kg := r.arg(s.K, s.KM)
+		vb, vg := r.arg(s.Val, s.VM)
 		var err error
 		name := "batch.Set"
 		if s.Op == "bdel" {
@@ -669,7 +901,12 @@ func (r *runner) exec(s Step) {
 			}
 		}
 		b.ops = append(b.ops, kvmodel.BatchOp{Del: s.Op == "bdel", K: string(s.K), V: string(s.Val)})
-		b.bufs = append(b.bufs, kb, vb)
+		for _, g := range []*gbuf{kg, vg} {
+			if g != nil {
+				b.bufs = append(b.bufs, g)
+				r.persist = append(r.persist, g) // untouched until Commit / Cancel
+			}
+		}
 
 	case "commit", "cancel":
 		if s.B < 0 || s.B >= len(r.batches) || r.batches[s.B].done {
@@ -710,7 +947,8 @@ func (r *runner) exec(s Step) {
 				}
 			}
 		}
-		r.st.scribbles += scribble(b.bufs...)
+		r.unpersist(b.bufs)
+		r.release(b.bufs...)
 	}
 }
 
@@ -825,6 +1063,37 @@ func (g *gen) prefix(v *view) []byte {
 	return []byte(g.word())
 }
 
+// mode decides how an argument is handed over: carved from a shared table when
+// its bytes occur there, with spare capacity, or exact-size.
+func (g *gen) mode(content []byte) int {
+	r := g.r
+	x := g.rng.Intn(12)
+	switch {
+	case x < 4 && r.kt != nil && bytes.Contains(r.kt.want[:len(r.kt.want)-tableSpare], content):
+		return modeKT
+	case x < 6 && r.rt != nil && bytes.Contains(r.rt.want[:len(r.rt.want)-tableSpare], content):
+		return modeRT
+	case x < 10:
+		return 1 + g.rng.Intn(8)
+	}
+	return 0
+}
+
+// tables returns the contents of the shared realm table and key table of a history.
+func (g *gen) tables() (rt, kt []byte) {
+	nonEmpty := alpha[1:]
+	rt = []byte([]string{"ab", "a\xff"}[g.rng.Intn(2)])
+	for i, n := 0, 1+g.rng.Intn(3); i < n; i++ {
+		rt = append(rt, nonEmpty[g.rng.Intn(len(nonEmpty))]...)
+	}
+	if g.rng.Intn(4) > 0 {
+		for i, n := 0, 4+g.rng.Intn(4); i < n; i++ {
+			kt = append(kt, nonEmpty[g.rng.Intn(len(nonEmpty))]...)
+		}
+	}
+	return rt, kt
+}
+
 func (g *gen) value() []byte {
 	w := g.word()
 	if g.rng.Intn(2) == 0 {
@@ -920,11 +1189,14 @@ func (g *gen) next(postClose bool) Step {
 	switch op {
 	case "get", "has", "delete":
 		s.K = g.key(v)
+		s.KM = g.mode(s.K)
 	case "set":
 		s.K = g.key(v)
 		s.Val = g.value()
+		s.KM, s.VM = g.mode(s.K), g.mode(s.Val)
 	case "deleteprefix":
 		s.K = g.prefix(v)
+		s.KM = g.mode(s.K)
 	case "iterate", "iteratekeys":
 		s.K = g.prefix(v)
 		if rng.Intn(3) == 0 {
@@ -934,9 +1206,24 @@ func (g *gen) next(postClose bool) Step {
 		if rng.Intn(2) == 0 {
 			s.Stop = 1 + rng.Intn(3)
 		}
+		s.KM = g.mode(s.K)
 	case "newview":
-		s.K = []byte(g.word())
 		s.Ext = rng.Intn(2) == 0
+		s.K = []byte(g.word())
+		s.KM = g.mode(s.K)
+		if rng.Intn(2) == 0 && r.rt != nil {
+			// carve the realm out of the shared realm table: table[:n] for WithRealm (sibling views
+			// then hold overlapping slices of one array), any table[i:j] for WithExtendedRealm
+			tc := r.rt.want[:len(r.rt.want)-tableSpare]
+			if s.Ext {
+				i := rng.Intn(len(tc) + 1)
+				j := i + rng.Intn(min(3, len(tc)-i)+1)
+				s.K = append([]byte{}, tc[i:j]...)
+			} else {
+				s.K = append([]byte{}, tc[:rng.Intn(min(4, len(tc))+1)]...)
+			}
+			s.KM = modeRT
+		}
 		s.Wraps = g.wraps(len(v.layers))
 	case "bset", "bdel", "commit", "cancel":
 		s.B = openBatches[rng.Intn(len(openBatches))]
@@ -950,7 +1237,9 @@ func (g *gen) next(postClose bool) Step {
 			}
 			if op == "bset" {
 				s.Val = g.value()
+				s.VM = g.mode(s.Val)
 			}
+			s.KM = g.mode(s.K)
 		}
 	}
 	return s
@@ -961,27 +1250,38 @@ func describe(r *runner, s Step) string {
 	if s.Op != "root" && s.V < len(r.views) {
 		vr = fmt.Sprintf("view%d[realm %q, %s]", s.V, r.views[s.V].realm, stackName(r.views[s.V].layers))
 	}
+	m := func(mode int) string {
+		switch {
+		case mode == modeRT:
+			return "<realm-table>"
+		case mode == modeKT:
+			return "<key-table>"
+		case mode > 0:
+			return fmt.Sprintf("<+%d cap>", mode)
+		}
+		return ""
+	}
 	switch s.Op {
 	case "root":
-		return fmt.Sprintf("root wraps=%v", s.Wraps)
+		return fmt.Sprintf("root wraps=%v realm-table=%q key-table=%q", s.Wraps, s.K, s.Val)
 	case "newview":
-		return fmt.Sprintf("%s.newview(ext=%v, %q) wraps=%v", vr, s.Ext, s.K, s.Wraps)
+		return fmt.Sprintf("%s.newview(ext=%v, %q%s) wraps=%v", vr, s.Ext, s.K, m(s.KM), s.Wraps)
 	case "set":
-		return fmt.Sprintf("%s.Set(%q, %q)", vr, s.K, s.Val)
+		return fmt.Sprintf("%s.Set(%q%s, %q%s)", vr, s.K, m(s.KM), s.Val, m(s.VM))
 	case "bset":
-		return fmt.Sprintf("batch%d.Set(%q, %q)", s.B, s.K, s.Val)
+		return fmt.Sprintf("batch%d.Set(%q%s, %q%s)", s.B, s.K, m(s.KM), s.Val, m(s.VM))
 	case "bdel":
-		return fmt.Sprintf("batch%d.Delete(%q)", s.B, s.K)
+		return fmt.Sprintf("batch%d.Delete(%q%s)", s.B, s.K, m(s.KM))
 	case "commit", "cancel":
 		return fmt.Sprintf("batch%d.%s()", s.B, s.Op)
 	case "iterate", "iteratekeys":
 		return fmt.Sprintf("%s.%s(%q, dir=%d, stop=%d)", vr, s.Op, s.K, s.Dir, s.Stop)
 	}
-	return fmt.Sprintf("%s.%s(%q)", vr, s.Op, s.K)
+	return fmt.Sprintf("%s.%s(%q%s)", vr, s.Op, s.K, m(s.KM))
 }
 
 // runHistory generates and executes one history; steps are recorded for replay.
-func runHistory(rng *rand.Rand, nSteps int, st *stats) (*failure, []Step) {
+func runHistory(rng *rand.Rand, nSteps int, st *stats) ([]failure, []Step) {
 	r := &runner{m: kvmodel.New(), st: st, writer: map[string]int{}}
 	g := &gen{rng: rng, r: r}
 	var steps []Step
@@ -991,8 +1291,9 @@ func runHistory(rng *rand.Rand, nSteps int, st *stats) (*failure, []Step) {
 		r.exec(s)
 		return r.fail == nil
 	}
-	if !do(Step{Op: "root", Wraps: g.wraps(0)}) {
-		return r.fail, steps
+	rtc, ktc := g.tables()
+	if !do(Step{Op: "root", Wraps: g.wraps(0), K: rtc, Val: ktc}) {
+		return r.failures(), steps
 	}
 	closeAt := -1
 	if rng.Intn(10) < 6 {
@@ -1006,7 +1307,7 @@ func runHistory(rng *rand.Rand, nSteps int, st *stats) (*failure, []Step) {
 			s = g.next(r.m.Closed)
 		}
 		if !do(s) {
-			return r.fail, steps
+			return r.failures(), steps
 		}
 	}
 	r.finalSweep()
@@ -1022,19 +1323,40 @@ func runHistory(rng *rand.Rand, nSteps int, st *stats) (*failure, []Step) {
 	if nested {
 		st.realmShapes["nested"] = true
 	}
-	return r.fail, steps
+	for i, a := range r.views {
+		if !a.shared {
+			continue
+		}
+		st.sharedViews++
+		for _, b := range r.views[i+1:] {
+			if b.shared && b.sharedLen != a.sharedLen {
+				st.sharedPairs++ // two live views whose realms are table[:m] and table[:n] of one array
+			}
+		}
+	}
+	return r.failures(), steps
 }
 
-func replaySteps(steps []Step, st *stats) *failure {
+// failures lists what a history produced: writes into caller buffers first
+// (non-terminal), then the model disagreement that ended it, if any.
+func (r *runner) failures() []failure {
+	out := append([]failure{}, r.alias...)
+	if r.fail != nil {
+		out = append(out, *r.fail)
+	}
+	return out
+}
+
+func replaySteps(steps []Step, st *stats) []failure {
 	r := &runner{m: kvmodel.New(), st: st, writer: map[string]int{}}
 	for _, s := range steps {
 		r.exec(s)
 		if r.fail != nil {
-			return r.fail
+			return r.failures()
 		}
 	}
 	r.finalSweep()
-	return r.fail
+	return r.failures()
 }
 
 // ---------------------------------------------------------------- driver
@@ -1047,13 +1369,13 @@ func run(c *vf.Ctx) {
 			os.Exit(3)
 		}
 		st := newStats()
-		if f := replaySteps(cs.Steps, st); f != nil {
+		for _, f := range replaySteps(cs.Steps, st) {
 			c.Violation(f.fp, f.what, cs)
 		}
 		c.Count("evaluations", st.evals)
 		return
 	}
-	c.SetRule("one evaluation = one operation executed on the real view/wrapper tree and compared with the ordered-map model (return values, errors, callback sequences, debug callbacks); histories are generated from the seed: root + random WithRealm/WithExtendedRealm chains over the realm alphabet {\"\",a,ab,a\\xff,\\xff,b} (and two-word concatenations), each view wrapped by 0-3 of flushkv / debug (all commands, filtered, nil callback); keys, prefixes and values come from the same alphabet, half of the keys are chosen among keys present in the view; a Close is placed in the second half of 60% of the histories and followed by every operation kind. distinct_nontrivial counts distinct histories (hash of the executed step list) that had a nested realm pair, at least one Get hit, one iteration delivering >= 2 entries and one value read through a view other than the writing one")
+	c.SetRule("one evaluation = one operation executed on the real view/wrapper tree and compared with the ordered-map model (return values, errors, callback sequences, debug callbacks); histories are generated from the seed: root + random WithRealm/WithExtendedRealm chains over the realm alphabet {\"\",a,ab,a\\xff,\\xff,b} (and two-word concatenations), each view wrapped by 0-3 of flushkv / debug (all commands, filtered, nil callback); keys, prefixes and values come from the same alphabet, half of the keys are chosen among keys present in the view; every argument is a slice of a harness-owned array – exact-size, with 1-8 bytes of canary-filled spare capacity, or carved out of a per-history shared realm table / key table (WithRealm realms as table[:n], so sibling views hold overlapping slices of one array) – and all such arrays are compared after every library call; buffers passed to Set / a finished batch are scribbled and reused for later arguments; a Close is placed in the second half of 60% of the histories and followed by every operation kind. distinct_nontrivial counts distinct histories (hash of the executed step list) that had a nested realm pair, at least one Get hit, one iteration delivering >= 2 entries and one value read through a view other than the writing one")
 	nHist := c.Pick(20000, 100000)
 	nSteps := c.Pick(60, 80)
 	workers := runtime.NumCPU()
@@ -1078,6 +1400,13 @@ func run(c *vf.Ctx) {
 		c.Count("get_misses", st.misses)
 		c.Count("batch_set_delete_mixes", st.batchMixed)
 		c.Count("batches_opened_while_another_open", st.multiBatch)
+		c.Count("args_exact_size", st.exactArgs)
+		c.Count("args_with_spare_capacity", st.spareArgs)
+		c.Count("args_carved_from_shared_table", st.sharedArgs)
+		c.Count("arg_buffers_reused_after_set_or_commit", st.reuses)
+		c.Count("caller_buffer_bytes_verified", st.guardBytes)
+		c.Count("views_with_realm_from_shared_table", st.sharedViews)
+		c.Count("sibling_view_pairs_overlapping_in_shared_table", st.sharedPairs)
 		for k := range st.stacks {
 			c.Distinct("wrapper_stack", k)
 			total.stacks[k] = true
@@ -1096,9 +1425,13 @@ func run(c *vf.Ctx) {
 			n++
 			rng := c.Rand(fmt.Sprintf("hist/%d", i))
 			hs := newStats()
-			f, steps := runHistory(rng, nSteps, hs)
-			if f != nil {
-				c.Violation(f.fp, fmt.Sprintf("history %d step %d (%s): %s", i, len(steps)-1, steps[len(steps)-1].Text, f.what), Case{History: i, Steps: steps, Failed: f.what})
+			fs, steps := runHistory(rng, nSteps, hs)
+			for _, f := range fs {
+				txt := ""
+				if f.step < len(steps) {
+					txt = steps[f.step].Text
+				}
+				c.Violation(f.fp, fmt.Sprintf("history %d step %d (%s): %s", i, f.step, txt, f.what), Case{History: i, Steps: steps, Failed: f.what})
 			}
 			if hs.realmShapes["nested"] && hs.hits > 0 && hs.iterMulti > 0 && hs.crossRealm > 0 {
 				h := fnv.New64a()
@@ -1133,6 +1466,13 @@ func run(c *vf.Ctx) {
 			st.misses += hs.misses
 			st.batchMixed += hs.batchMixed
 			st.multiBatch += hs.multiBatch
+			st.exactArgs += hs.exactArgs
+			st.spareArgs += hs.spareArgs
+			st.sharedArgs += hs.sharedArgs
+			st.reuses += hs.reuses
+			st.guardBytes += hs.guardBytes
+			st.sharedViews += hs.sharedViews
+			st.sharedPairs += hs.sharedPairs
 			for k := range hs.stacks {
 				st.stacks[k] = true
 			}
@@ -1147,6 +1487,10 @@ func run(c *vf.Ctx) {
 	c.Require("debug_callbacks_checked", 5000)
 	c.Require("batch_set_delete_mixes", 200)
 	c.Require("scribbled_bytes", 10000)
+	c.Require("args_with_spare_capacity", 100000)
+	c.Require("args_carved_from_shared_table", 50000)
+	c.Require("arg_buffers_reused_after_set_or_commit", 20000)
+	c.Require("sibling_view_pairs_overlapping_in_shared_table", 5000)
 	c.Assume("the model (harness/internal/kvmodel, ~40 lines of map operations) is correct; the callback passed to debug.New is only invoked synchronously")
 }
 
